@@ -52,22 +52,24 @@ def run_histories(repo, cls, names=("ode", "jacobian"), otypes=(None, "mat"), ma
         raise AnalysisError("add_func vanished")
     ops = ["eval:" + names[0], "eval:" + names[1], "modify", "params", "add-parameter"]
     bad, n = [], 0
-    for L in range(1, maxlen + 1):
-        for hist in itertools.product(ops, repeat=L):
-            if not hist[-1].startswith("eval:"):
-                continue        # a history is judged at evaluations; one ending in a mutation is a prefix of longer ones
-            n += 1
-            why = play(repo, cls, add_func, names, otypes, hist)
-            if why:
-                bad.append("%s: %s" % (" -> ".join(hist), why))
-                if len(bad) >= 6:
-                    return bad, n
+    for difficult in (False, True):
+        # `difficult`: the model was flagged as needing the arbitrary-precision back-end (another branch of the compile call)
+        for L in range(1, (maxlen if not difficult else min(maxlen, 3)) + 1):
+            for hist in itertools.product(ops, repeat=L):
+                if not hist[-1].startswith("eval:"):
+                    continue        # a history is judged at evaluations; one ending in a mutation is a prefix of longer ones
+                n += 1
+                why = play(repo, cls, add_func, names, otypes, hist, difficult)
+                if why:
+                    bad.append("%s%s: %s" % (" -> ".join(hist), " (difficult-expression back-end)" if difficult else "", why))
+                    if len(bad) >= 6:
+                        return bad, n
     return bad, n
 
 
-def play(repo, cls, add_func, names, otypes, hist):
+def play(repo, cls, add_func, names, otypes, hist, difficult=False):
     world = {"gen": 0, "params": 0, "lists": 0}
-    me = Obj("Model", verbose=False, _isDifficult=False, _sp=Tok("symbols-of-lists-0"))
+    me = Obj("Model", verbose=False, _isDifficult=difficult, _sp=Tok("symbols-of-lists-0"))
     me.attrs["_hasNewTransition"] = Canary(list(names))
     sc = Obj("SC")
     me.attrs["_SC"] = sc
